@@ -65,7 +65,7 @@ fn unbond_failure_signature(w_before: &World, st: bool, amount: u128, generic: S
     let s = hub_state(w_before);
     let b = crate::obs::hub_batch(w_before);
     let p = hub_params(w_before);
-    let epoch_passed = w_before.time - s.last_unbonded_time > p.epoch_period;
+    let epoch_passed = w_before.time.saturating_sub(s.last_unbonded_time) > p.epoch_period;
     let req_b = b.requested_bsei_with_fee.u128() + if st { 0 } else { amount };
     let req_s = b.requested_stsei.u128() + if st { amount } else { 0 };
     if epoch_passed && s.total_bond_bsei_amount.is_zero() && req_b > 0 {
